@@ -60,9 +60,9 @@ T = {
  "C14": ("Lean theorems: simplify preserves the denoted function and returns a cover with no zero cube, no duplicate and no cube implying another; &, |, ! denote AND, OR, NOT for arbitrary operand cube lists; "
          "is_zero exact, is_one sound; Lut<->Sop round trip; tie: differential run on redundant cube lists comparing cube lists exactly; oracle: Lut semantics + structural checker.",
          "Trust: as C01.", "Lean 4 proof + differential run + semantic/structural oracle", "5 (C14)"),
- "C15": ("Lean theorems: the sweep emits positive cubes in increasing order, each at most once, and converting back gives the function (loop invariant of the in-place Moebius sweep); ^, ! and is_zero/is_one; "
+ "C15": ("Lean theorems: the sweep emits positive cubes in increasing order, each at most once, converting back gives the function (loop invariant of the in-place Moebius sweep), the emitted cubes are exactly the monomials whose ANF coefficient is 1 (uniqueness of duplicate-free positive ESOPs + Moebius inversion over GF(2)), equal functions give equal Esops; ^, ! and is_zero/is_one; "
          "tie: differential run over all functions n <= 3 (quick) / 4 (thorough), random to 10; oracle: ANF coefficients by definition.",
-         "Trust: as C01.", "Lean 4 proof (loop invariant) + differential run + ANF oracle", "5 (C15)"),
+         "Trust: as C01.", "Lean 4 proof (loop invariant, uniqueness, Moebius inversion) + differential run + ANF oracle", "5 (C15)"),
  "C16": ("Lean theorems: the printed text of cubes, exclusive cubes, Sop, Esop, Soes evaluates under the grammar's evaluator to the object's value; tie: strings printed by the real code are compared byte for byte with the model "
          "and read back by an independent parser in the oracle.", "Trust: as C01; the grammar evaluator is a hand-written definition (Spec/EvalText.lean).",
          "Lean 4 proof + byte-exact differential run + independent formula reader", "5 (C16)"),
